@@ -6,20 +6,25 @@ ENTRY = dict(
                 "schedules and all histories of calls (repeated, concurrent, expired), any number of start events. SAFETY, "
                 "for all values of the extracted facts: the cease-flow trace is emitted only in a state where every start "
                 "event has fired and the wait-group counter is 0, at most once per monitor, and nothing but cease traces "
-                "follows it (cease_sound); a call issued after StartAll returned returns true only after it (wait_sound). "
+                "follows it except traces of goroutines the wait group does not count (cease_sound; none of those, hence cease "
+                "strictly last, when the fact boundaryEndTraceDetached is false: cease_last); a call issued after StartAll "
+                "returned returns true only after it (wait_sound). "
                 "LIVENESS as bounded progress (complete_live): if the monitor subscribes before Trigger, StartAll creates "
                 "one monitor and the signal channel is buffered, then StartAll is never blocked for good and from every "
                 "reachable state with all starts fired and no token some goroutine can move, every move counts a measure "
                 "down, new calls add 3 to it, and after that many moves the cease trace is out, the lock free and every "
                 "present and future call has returned. For the negations the faithful model has witnesses proved stuck "
                 "under EVERY continuation (missed start, second monitor stalling the tracer on its 11th unread trace, "
-                "helper of an expired wait keeping the lock); the facts are re-read from process.go / tracer.go on every "
+                "helper of an expired wait keeping the lock) plus a witness that the boundary-end trace of an activity can "
+                "follow the cease trace; the five facts are re-read from process.go / tracer.go / activity.go on every "
                 "run and the instantiation is an if-then-else dichotomy, so today's tree builds the witness side (the "
-                "full statement is FALSE on today's code: D2, D3, D4 are known findings reproduced on the real engine in "
-                "every run) and a repaired tree builds the positive side."),
+                "full statement is FALSE on today's code: D2, D3, D4, D33 are known findings re-observed on the real "
+                "engine) and a repaired tree builds the positive side (checked for all 8 combinations of the three "
+                "repairs, and by running the check against the candidate patches)."),
     level_note=("partial on today's tree: C02_statement is proved false at the current facts (C02_not_holds_today); what "
-                "holds unconditionally is the safety half; C02_holds_partial needs the three repairs (C02_single_start_"
-                "partial: two of them for processes with one start event). trusted: Lean kernel, extractor, harness, "
+                "holds unconditionally is the safety half; C02_holds_partial needs the three repairs of complete_live plus "
+                "the ordered boundary-end trace (C02_single_start_partial: without the one-monitor repair for processes "
+                "with one start event). trusted: Lean kernel, extractor, harness, "
                 "whole-process quiescence detection; modelled not verified: Go channels, sync.RWMutex (any waiter may win), "
                 "sync.WaitGroup as a counter fed by an environment that only creates tokens from live tokens or start "
                 "events and lets a start event's token report before it dies; the relay of the instance tracer and outside "
@@ -36,13 +41,16 @@ ENTRY = dict(
           "calls spanning the completion) started freely (thorough: also under 3 seeded perturbations of the hook points), "
           "plus enforced schedules through internal/verifhook: StartWith held between Trigger and monitor creation until "
           "the start's traces are out (missed start), a helper parked at process.wait.locked until its caller expired, the "
-          "second StartWith held before / after its Trigger until quiescence (2..3 start events). StartAll runs in a "
+          "second StartWith held before / after its Trigger until quiescence (2..3 start events; the layout of StartWith "
+          "is probed so the choreography works before and after the repair). StartAll runs in a "
           "goroutine; 'blocked' = not returned at whole-process quiescence. The driver (a) evaluates the C02 predicate on "
           "the recorded history: cease once, last, not while a task request is unanswered, no true before cease, cease "
           "after the last answer, waits true after cease; (b) replays the history through the model at the extracted "
           "facts (enforced schedules, and free runs whenever one monitor exists): every observed trace must be acceptable "
           "to the model's tracer, cease count, StartAll's return and every call's result must agree - in particular the "
-          "exact trace at which the tracer stalls. non-trivial = the run reached the end of the answers and made at "
+          "exact trace at which the tracer stalls (a model with buffer 9 instead of 10 is rejected); where the history "
+          "does not pin the start-up race (free runs, release before a Trigger) every lag of the starter behind the "
+          "token's traces is tried. non-trivial = the run reached the end of the answers and made at "
           "least one call; distinct by (shape, starts, scenario, history, perturbation, recorded lines)"),
     trusted_base=TB_COMMON + ["whole-process quiescence detection via runtime.Stack goroutine states",
                               "internal/verifhook schedule points (process.startwith.*, process.wait.locked) park the "
